@@ -26,10 +26,12 @@ import (
 	"github.com/dfklegend/cell2/node/service"
 	"github.com/dfklegend/cell2/utils/common"
 	"github.com/dfklegend/cell2/utils/logger"
+	logproxy "github.com/dfklegend/cell2/utils/logger/proxy"
 	"github.com/dfklegend/cell2/utils/runservice"
 
 	mymsg "mmo/messages"
 	"mmo/servers/scenem"
+	hscenem "mmo/servers/scenem/handler"
 )
 
 const svcPrefix = "scene-"
@@ -54,10 +56,12 @@ type sentReq struct {
 }
 
 type env struct {
+	hs   *hscenem.Service // the scenem service object (handler package): NodeService + Mgr
 	mgr  *scenem.SceneServiceMgr
 	ns   *service.NodeService
 	self *actor.PID
 	sent []sentReq
+	acks []string // what clients of the AllocScene handler were answered, in order
 }
 
 // stubCtx stands in for the actor context of the manager's NodeService: the
@@ -71,6 +75,7 @@ type stubCtx struct {
 }
 
 func (c *stubCtx) Self() *actor.PID      { return c.e.self }
+func (c *stubCtx) Actor() actor.Actor    { return c.e.hs }
 func (c *stubCtx) Message() interface{} { return c.msg }
 func (c *stubCtx) Send(pid *actor.PID, m interface{}) {
 	req, ok := m.(*messages.ServiceRequest)
@@ -104,19 +109,48 @@ func setRoutable(ks []int) {
 
 var cur *env
 
+// pump runs what has been posted to the service's scheduler (the waterfall steps of
+// the AllocScene handler), as the service's own loop would between two messages.
+func (e *env) pump() {
+	sc := e.ns.GetRunService().GetScheduler()
+	for {
+		select {
+		case t := <-sc.GetChanTask():
+			if t != nil {
+				sc.DoTask(t)
+			}
+		default:
+			return
+		}
+	}
+}
+
 func newEnv() *env {
-	ns := service.NewService()
+	// the scenem service as the node builds it (NodeService + NewMgr), not spawned as an actor
+	hs := hscenem.NewService()
+	ns := hs.GetNodeService()
 	// a run service that is never started: timers can be registered (the public
 	// scene spawner and the manager's own 1 s update do that) but never run;
-	// the keep-alive check is driven by the `tick` op instead.
+	// the keep-alive check is driven by the `tick` op instead, and posted tasks by pump().
 	ns.SetRunService(runservice.NewStandardRunService("c19"))
-	m := scenem.NewMgr(ns)
+	m := hs.Mgr
 	m.Start()
-	e := &env{mgr: m, ns: ns, self: actor.NewPID("h:9", "scenem-1")}
+	e := &env{hs: hs, mgr: m, ns: ns, self: actor.NewPID("h:9", "scenem-1")}
 	// what actor.Started does for a spawned service: remember the context
 	ns.Receive(&stubCtx{e: e, msg: &actor.Started{}})
 	setRoutable(nil)
 	return e
+}
+
+// showAck renders what the AllocScene handler answered to its client.
+func showAck(err error, ret interface{}) string {
+	if err != nil {
+		return "nack"
+	}
+	if a, ok := ret.(*mymsg.SMAllocSceneAck); ok && a != nil {
+		return fmt.Sprintf("ack:%d:%s", a.SceneId, svcShow(a.ServiceId))
+	}
+	return "ack:?"
 }
 
 func showScene(s scenem.VScene) string {
@@ -256,6 +290,43 @@ func exec(op string) string {
 				// nothing was sent: the request failed at once (no such service in the cluster view)
 				r = "noroute"
 			}
+		case "halloc":
+			// the remote AllocScene handler (handler/remote.go): AllocScene + waterfall(app.Request + callback) + answer to the client
+			before, nacks := len(e.sent), len(e.acks)
+			cfg := int32(hx.KVInt(ws, "cfg"))
+			(&hscenem.Entry{}).AllocScene(&as.RemoteContext{ActorContext: &stubCtx{e: e}}, &mymsg.SMAllocScene{UId: 1, CfgId: cfg},
+				func(err error, ret interface{}) { e.acks = append(e.acks, showAck(err, ret)) })
+			e.pump()
+			switch {
+			case len(e.sent) == before+1 && len(e.acks) == nacks:
+				q := e.sent[before]
+				r = fmt.Sprintf("%d:%s:sent", q.sid, svcShow(q.svc))
+				if q.cfg != cfg {
+					r += "!cfg"
+				}
+			case len(e.sent) == before && len(e.acks) == nacks+1:
+				r = "answered:" + e.acks[nacks]
+			case len(e.sent) == before && len(e.acks) == nacks:
+				r = "silent" // nothing sent, the client is never answered
+			default:
+				r = fmt.Sprintf("confused:%d:%d", len(e.sent)-before, len(e.acks)-nacks)
+			}
+		case "keeper":
+			// one round of the public-scene keeper for the public scene (cfg, n): trySpawnScene -> SpawnScene
+			before := len(e.sent)
+			cfg := int32(hx.KVInt(ws, "cfg"))
+			cnt := e.mgr.VKeeper(cfg, int32(hx.KVInt(ws, "n")))
+			r = "quiet"
+			if len(e.sent) == before+1 {
+				q := e.sent[before]
+				r = fmt.Sprintf("%d:%s:sent", q.sid, svcShow(q.svc))
+				if q.cfg != cfg {
+					r += "!cfg"
+				}
+			} else if len(e.sent) != before {
+				r = "several-requests"
+			}
+			r += fmt.Sprintf("/%d", cnt)
 		case "reply":
 			// the scene service's answer to an allocation request (ok / error) reaches the manager
 			sid := hx.KVU64(ws, "sid")
@@ -267,8 +338,13 @@ func exec(op string) string {
 					if v, _ := hx.KV(ws, "res"); v != "ok" {
 						res.ErrCode, res.ErrInfo = 1, "alloc failed"
 					}
+					nacks := len(e.acks)
 					e.ns.Receive(&stubCtx{e: e, msg: res})
+					e.pump()
 					r = "done"
+					for _, a := range e.acks[nacks:] {
+						r += "+" + a
+					}
 					break
 				}
 			}
@@ -302,7 +378,8 @@ type gen struct {
 	ended   []uint64
 	pending []string // "sid cfg svc" returned by alloc and not yet confirmed
 	nextOwn uint64   // ids for creations that do not come from alloc
-	flight  []string // scene ids of SpawnScene requests nobody answered yet
+	flight  []string // "sid/cfg" of SpawnScene requests nobody answered yet
+	cfgIds  []int    // the configuration ids of this case
 }
 
 func routeOp(h *hx.T) string {
@@ -317,9 +394,13 @@ func routeOp(h *hx.T) string {
 	return "route svcs=1,2,3"
 }
 
-var cfgIds = []int{100, 101, 102}
+// Configuration ids are drawn per case from one of several families: the
+// production-like ids, and small ids that coincide with line numbers (0,1,2,…),
+// scene-service numbers and freshly allocated scene ids, so that a mix-up between
+// the id spaces (all int32/uint64 in the Go code) shows in the dump.
+var cfgFamilies = [][]int{{100, 101, 102}, {0, 1, 2}, {1, 2, 3}, {0, 1, 100}, {2, 3, 1000}}
 
-func (g *gen) cfg() int { return cfgIds[g.h.R.Intn(len(cfgIds))] }
+func (g *gen) cfg() int { return g.cfgIds[g.h.R.Intn(len(g.cfgIds))] }
 
 func (g *gen) svc() int {
 	if g.h.R.Intn(25) == 0 {
@@ -399,6 +480,18 @@ func workingSet(obs string) map[string]bool {
 		}
 	}
 	return out
+}
+
+func dumpField(obs, key string) string {
+	i := strings.Index(obs, key)
+	if i < 0 {
+		return ""
+	}
+	rest := obs[i+len(key):]
+	if j := strings.IndexByte(rest, ' '); j >= 0 {
+		rest = rest[:j]
+	}
+	return rest
 }
 
 func sceneCount(obs string) int {
@@ -485,6 +578,12 @@ func (g *gen) oneCase(run0 func(string) string, nops int, malformed bool) {
 	h := g.h
 	g.live, g.ended, g.pending, g.flight = nil, nil, nil, nil
 	g.nextOwn = 1000 + uint64(h.R.Intn(5))*1000
+	fam := 0
+	if h.R.Intn(2) == 0 {
+		fam = 1 + h.R.Intn(len(cfgFamilies)-1)
+	}
+	g.cfgIds = cfgFamilies[fam]
+	h.Count(fmt.Sprintf("case.cfg-family.%d", fam))
 	run("reset")
 	if h.R.Intn(4) != 0 { // else: no scene service is routable (every spawn fails at once)
 		run(routeOp(h))
@@ -498,9 +597,28 @@ func (g *gen) oneCase(run0 func(string) string, nops int, malformed bool) {
 	for i := 0; i < nops; i++ {
 		var obs string
 		switch c := h.R.Intn(100); {
+		case c < 3: // one round of the public-scene keeper (trySpawnScene: spawn only below the required number)
+			h.Count("op.keeper")
+			cfg := g.cfg()
+			obs = run(fmt.Sprintf("keeper cfg=%d n=%d", cfg, h.Pick(0, 1, 2, 2, 3, 5)))
+			f := strings.Split(strings.SplitN(strings.Fields(obs)[0], "/", 2)[0], ":")
+			switch {
+			case len(f) == 3 && f[2] == "sent":
+				h.Count("reach.keeper.request-sent")
+				for _, fl := range g.flight {
+					if fl[strings.IndexByte(fl, '/')+1:] == strconv.Itoa(cfg) {
+						h.Count("reach.keeper.request-sent-while-another-outstanding")
+						break
+					}
+				}
+				g.flight = append(g.flight, f[0][2:]+"/"+strconv.Itoa(cfg))
+			case strings.HasPrefix(obs, "r=quiet"):
+				h.Count("keeper.quiet")
+			}
 		case c < 6: // the keeper's path: real SpawnScene (allocation + remote request)
 			h.Count("op.spawn")
-			obs = run(fmt.Sprintf("spawn cfg=%d", g.cfg()))
+			cfg := g.cfg()
+			obs = run(fmt.Sprintf("spawn cfg=%d", cfg))
 			f := strings.Split(strings.Fields(obs)[0], ":")
 			switch {
 			case strings.HasPrefix(obs, "r=noroute"):
@@ -509,20 +627,36 @@ func (g *gen) oneCase(run0 func(string) string, nops int, malformed bool) {
 				h.Count("spawn.no-working-service")
 			case len(f) == 3 && f[2] == "sent":
 				h.Count("reach.spawn.request-sent")
-				g.flight = append(g.flight, f[0][2:])
+				g.flight = append(g.flight, f[0][2:]+"/"+strconv.Itoa(cfg))
 			}
 		case c < 11: // the scene service answers an allocation request
 			switch {
 			case len(g.flight) > 0 && h.R.Intn(8) != 0:
 				j := h.R.Intn(len(g.flight))
-				sid := g.flight[j]
+				sid := g.flight[j][:strings.IndexByte(g.flight[j], '/')]
 				g.flight = append(g.flight[:j], g.flight[j+1:]...)
 				if h.R.Intn(5) < 3 {
 					h.Count("reach.reply.ok")
+					before := last
 					obs = run("reply sid=" + sid + " res=ok")
+					if strings.HasPrefix(obs, "r=done+ack") {
+						h.Count("reach.reply.client-told-ok")
+					}
+					// the answer arrived after its service was declared lost (the scene is registered all the same)
+					if sceneCount(obs) == sceneCount(before)+1 {
+						for _, sc := range strings.Split(dumpField(obs, "S="), ",") {
+							f := strings.Split(sc, ":")
+							if len(f) == 4 && f[0] == sid && !workingSet(obs)[f[3]] {
+								h.Count("reach.reply.ok-after-service-lost")
+							}
+						}
+					}
 				} else {
 					h.Count("reach.reply.error")
 					obs = run("reply sid=" + sid + " res=err")
+					if strings.HasPrefix(obs, "r=done+nack") {
+						h.Count("reach.reply.client-told-error")
+					}
 				}
 			case h.R.Intn(3) == 0:
 				h.Count("op.reply.unknown-request")
@@ -530,6 +664,20 @@ func (g *gen) oneCase(run0 func(string) string, nops int, malformed bool) {
 			default:
 				h.Count("op.route")
 				obs = run(routeOp(h))
+			}
+		case c < 16 && h.R.Intn(2) == 0: // the remote AllocScene handler: allocation + request + answer to the client
+			h.Count("op.halloc")
+			cfg := g.cfg()
+			obs = run(fmt.Sprintf("halloc cfg=%d", cfg))
+			f := strings.Split(strings.Fields(obs)[0], ":")
+			switch {
+			case strings.HasPrefix(obs, "r=silent"):
+				h.Count("reach.halloc.client-never-answered(no-working-service)")
+			case strings.HasPrefix(obs, "r=answered:nack"):
+				h.Count("reach.halloc.refused-at-once(no-route)")
+			case len(f) == 3 && f[2] == "sent":
+				h.Count("reach.halloc.request-sent")
+				g.flight = append(g.flight, f[0][2:]+"/"+strconv.Itoa(cfg))
 			}
 		case c < 16: // allocation (placement decision)
 			h.Count("op.alloc")
@@ -621,6 +769,9 @@ func (g *gen) oneCase(run0 func(string) string, nops int, malformed bool) {
 
 func TestRun(t *testing.T) {
 	logger.SetLogLevel(0) // logrus.PanicLevel: the code under test logs every event
+	if lp := logproxy.GetLogs().GetLog("exception"); lp != nil {
+		lp.SetLogLevel(0) // the scheduler logs every recovered panic with its stack (halloc with no working service)
+	}
 	synctest.Test(t, func(t *testing.T) {
 		h := hx.Open()
 		defer h.Close()
